@@ -662,7 +662,12 @@ def least_right_singular_vectors(
     V0 = V[:, sort_indexes[0:n]]
     V1 = V[:, sort_indexes[n:]]
 
-    return V0, V1, S[sort_indexes[n:]]
+    # A matrix with fewer rows than columns has only `nrows` singular
+    # values: the other right singular vectors have singular value zero
+    all_S = np.zeros(V.shape[0], dtype=S.dtype)
+    all_S[:S.size] = S
+
+    return V0, V1, all_S[sort_indexes[n:]]
 
 
 # New versions of numpy already have this method
